@@ -23,6 +23,26 @@ const STRICT: sm::Opts = sm::Opts {
 };
 pub const PREFIX: usize = 3;
 
+/// A check whose attribution differs between the solver's query and the native
+/// twin.  Under Kani a round-trip property is decided in two halves (encoder
+/// output = specified octets; specified octets decode to the value), so both
+/// halves carry the round-trip property's id.  The native twin runs the round
+/// trip on the real encoder's real output instead, and there each half only
+/// carries the id of the property it states on its own — so a VIOLATION of a
+/// round-trip property is reported only when the real round trip fails.
+macro_rules! check_kn {
+    ($c:expr, $k:literal, $n:literal) => {{
+        #[cfg(kani)]
+        {
+            check!($c, $k);
+        }
+        #[cfg(not(kani))]
+        {
+            check!($c, $n);
+        }
+    }};
+}
+
 /// Data message: encode (after a symbolic prefix) vs specified octets, then
 /// decode.  `p` payload octets, optional Ns/Nr, optional Length (= true total),
 /// optional offset size `off` (≤ p-1; the encoder writes no padding, so the
@@ -68,9 +88,42 @@ pub fn data_rt_body(p: usize, with_nsnr: bool, with_len: bool, off: Option<usize
     }
     e.extend_from_slice(payload);
 
-    require!(w.data.len() == PREFIX + total, "C04,C06,C09: a data message encodes to flag word, optional fields and payload, appended after what the writer held");
+    // native twin: the round trip on what the real encoder really emitted
+    #[cfg(not(kani))]
+    {
+        let skip = off.unwrap_or(0);
+        let mut w0 = VecWriter::new();
+        m.write(&mut w0);
+        let r0: Res = Message::try_read_validate(&mut SliceReader::from(&w0.data[..]), real_opts(STRICT));
+        let same = match &r0 {
+            Ok(Message::Data(d)) => {
+                d.tunnel_id == tid
+                    && d.session_id == sid
+                    && d.ns_nr == if with_nsnr { Some((ns, nr)) } else { None }
+                    && d.is_prioritized == prio
+                    && d.length == if with_len { Some(total as u16) } else { None }
+                    && d.offset.is_none()
+                    && bytes_eq(d.data, &payload[skip..])
+            }
+            _ => false,
+        };
+        check!(same, "C04: (native twin, real encoder output) encode then decode returns the same ids, Ns/Nr, priority, length and payload");
+        if off.is_none() {
+            check!(same, "C10: (native twin, real encoder output) the encoded data message decodes to the same value");
+            if let Ok(m2) = &r0 {
+                let mut w2 = VecWriter::new();
+                m2.write(&mut w2);
+                check!(w2.data == w0.data, "C10: (native twin) encoding the decoded data message reproduces the same octets");
+            }
+        }
+    }
+    let len_ok = w.data.len() == PREFIX + total;
+    check_kn!(len_ok, "C04,C06,C09,C10: a data message encodes to flag word, optional fields and payload, appended after what the writer held", "C06,C09: a data message encodes to flag word, optional fields and payload, appended after what the writer held");
+    if !len_ok {
+        return;
+    }
     check!(w.data[0] == prefix[0] && w.data[1] == prefix[1] && w.data[2] == prefix[2], "C09: octets already in the writer are untouched");
-    check!(bytes_eq(&w.data[PREFIX..], &e), "C04,C06,C09: data message octets equal the specification encoder's (flag word, big-endian fields in RFC 2661 order, payload; a Length field is written as given), independent of position");
+    check_kn!(bytes_eq(&w.data[PREFIX..], &e), "C04,C06,C09,C10: data message octets equal the specification encoder's (flag word, big-endian fields in RFC 2661 order, payload; a Length field is written as given), independent of position", "C06,C09: data message octets equal the specification encoder's (flag word, big-endian fields in RFC 2661 order, payload; a Length field is written as given), independent of position");
 
     // decode what was encoded, followed by two unrelated octets when a length field delimits the message
     let mut buf = [0u8; 32];
@@ -91,17 +144,31 @@ pub fn data_rt_body(p: usize, with_nsnr: bool, with_len: bool, off: Option<usize
     let skip = off.unwrap_or(0);
     match &res {
         Ok(Message::Data(d)) => {
-            check!(d.tunnel_id == tid && d.session_id == sid, "C04: ids survive encode then decode");
-            check!(d.ns_nr == if with_nsnr { Some((ns, nr)) } else { None }, "C04: Ns/Nr survive encode then decode");
-            check!(d.is_prioritized == prio, "C04: priority survives encode then decode");
-            check!(d.length == if with_len { Some(total as u16) } else { None }, "C04: the length field survives encode then decode");
+            check_kn!(d.tunnel_id == tid && d.session_id == sid, "C04,C10: ids survive encode then decode", "C05: the specified octets of a data message decode to the specified ids");
+            check_kn!(d.ns_nr == if with_nsnr { Some((ns, nr)) } else { None }, "C04,C10: Ns/Nr survive encode then decode", "C05: the specified octets of a data message decode to the specified Ns/Nr");
+            check_kn!(d.is_prioritized == prio, "C04,C10: priority survives encode then decode", "C05: the specified octets of a data message decode to the specified priority");
+            check_kn!(d.length == if with_len { Some(total as u16) } else { None }, "C04,C10: the length field survives encode then decode", "C05: the specified octets of a data message decode to the specified length");
             check!(d.offset.is_none(), "C04: a decoded data message reports no offset");
-            check!(bytes_eq(d.data, &payload[skip..]), "C04: the payload survives encode then decode (minus exactly the skipped offset octets)");
+            check_kn!(bytes_eq(d.data, &payload[skip..]), "C04,C10: the payload survives encode then decode (minus exactly the skipped offset octets)", "C05: the specified octets of a data message decode to the specified payload; exactly the announced offset octets are skipped");
         }
-        _ => check!(false, "C04: an encoded data message with a non-empty payload decodes"),
+        _ => check_kn!(false, "C04,C10: an encoded data message with a non-empty payload decodes", "C05: the specified octets of a data message with a non-empty payload decode"),
     }
     if with_len {
         check!(r.len() == 2, "C08: decoding consumes exactly the declared length; the next message's octets stay in the reader");
+    }
+    // C10 for data messages without an offset field.  The values built above
+    // (Length absent or equal to the true total) are exactly the values the
+    // decoder can return for such a message (C05: `msg_dec_*` ties every
+    // accepted octet string to the specified value, whose Length is header +
+    // payload).  m -> e -> m' is checked field for field above; here m' is
+    // encoded again and must reproduce e.
+    if off.is_none() {
+        if let Ok(m2) = &res {
+            let mut w2 = VecWriter::new();
+            m2.write(&mut w2);
+            check_kn!(w2.data.len() == total && bytes_eq(&w2.data, &e), "C10: encoding the decoded data message reproduces the octets it was decoded from (one round is a fixed point)", "C06: encoding the value decoded from the specified octets reproduces them");
+            witness!(w2.data.len() == total, "reencoded");
+        }
     }
     witness!(res.is_ok(), "decoded");
     std::mem::forget(res);
@@ -403,47 +470,47 @@ macro_rules! data_rt {
 }
 
 // GENERATED BY gen.py — BEGIN
-//@ props=C04,C06,C08,C09 tier=quick unwind=36 witness=decoded
+//@ props=C04,C06,C08,C09,C10 tier=quick unwind=36 witness=decoded,reencoded
 data_rt!(data_rt_p1_s0_l0_on, 1, false, false, None);
 //@ props=C04,C06,C08,C09 tier=quick unwind=36 witness=decoded
 data_rt!(data_rt_p1_s0_l0_o0, 1, false, false, Some(0));
-//@ props=C04,C06,C08,C09 tier=thorough unwind=36 witness=decoded
+//@ props=C04,C06,C08,C09,C10 tier=thorough unwind=36 witness=decoded,reencoded
 data_rt!(data_rt_p1_s0_l1_on, 1, false, true, None);
 //@ props=C04,C06,C08,C09 tier=thorough unwind=36 witness=decoded
 data_rt!(data_rt_p1_s0_l1_o0, 1, false, true, Some(0));
-//@ props=C04,C06,C08,C09 tier=thorough unwind=36 witness=decoded
+//@ props=C04,C06,C08,C09,C10 tier=thorough unwind=36 witness=decoded,reencoded
 data_rt!(data_rt_p1_s1_l0_on, 1, true, false, None);
 //@ props=C04,C06,C08,C09 tier=thorough unwind=36 witness=decoded
 data_rt!(data_rt_p1_s1_l0_o0, 1, true, false, Some(0));
-//@ props=C04,C06,C08,C09 tier=quick unwind=36 witness=decoded
+//@ props=C04,C06,C08,C09,C10 tier=quick unwind=36 witness=decoded,reencoded
 data_rt!(data_rt_p1_s1_l1_on, 1, true, true, None);
 //@ props=C04,C06,C08,C09 tier=quick unwind=36 witness=decoded
 data_rt!(data_rt_p1_s1_l1_o0, 1, true, true, Some(0));
-//@ props=C04,C06,C08,C09 tier=thorough unwind=36 witness=decoded
+//@ props=C04,C06,C08,C09,C10 tier=thorough unwind=36 witness=decoded,reencoded
 data_rt!(data_rt_p2_s0_l0_on, 2, false, false, None);
 //@ props=C04,C06,C08,C09 tier=thorough unwind=36 witness=decoded
 data_rt!(data_rt_p2_s0_l0_o0, 2, false, false, Some(0));
 //@ props=C04,C06,C08,C09 tier=thorough unwind=36 witness=decoded
 data_rt!(data_rt_p2_s0_l0_o1, 2, false, false, Some(1));
-//@ props=C04,C06,C08,C09 tier=quick unwind=36 witness=decoded
+//@ props=C04,C06,C08,C09,C10 tier=quick unwind=36 witness=decoded,reencoded
 data_rt!(data_rt_p2_s0_l1_on, 2, false, true, None);
 //@ props=C04,C06,C08,C09 tier=thorough unwind=36 witness=decoded
 data_rt!(data_rt_p2_s0_l1_o0, 2, false, true, Some(0));
 //@ props=C04,C06,C08,C09 tier=quick unwind=36 witness=decoded
 data_rt!(data_rt_p2_s0_l1_o1, 2, false, true, Some(1));
-//@ props=C04,C06,C08,C09 tier=thorough unwind=36 witness=decoded
+//@ props=C04,C06,C08,C09,C10 tier=quick unwind=36 witness=decoded,reencoded
 data_rt!(data_rt_p2_s1_l0_on, 2, true, false, None);
 //@ props=C04,C06,C08,C09 tier=thorough unwind=36 witness=decoded
 data_rt!(data_rt_p2_s1_l0_o0, 2, true, false, Some(0));
 //@ props=C04,C06,C08,C09 tier=thorough unwind=36 witness=decoded
 data_rt!(data_rt_p2_s1_l0_o1, 2, true, false, Some(1));
-//@ props=C04,C06,C08,C09 tier=thorough unwind=36 witness=decoded
+//@ props=C04,C06,C08,C09,C10 tier=thorough unwind=36 witness=decoded,reencoded
 data_rt!(data_rt_p2_s1_l1_on, 2, true, true, None);
 //@ props=C04,C06,C08,C09 tier=thorough unwind=36 witness=decoded
 data_rt!(data_rt_p2_s1_l1_o0, 2, true, true, Some(0));
 //@ props=C04,C06,C08,C09 tier=thorough unwind=36 witness=decoded
 data_rt!(data_rt_p2_s1_l1_o1, 2, true, true, Some(1));
-//@ props=C04,C06,C08,C09 tier=quick unwind=36 witness=decoded
+//@ props=C04,C06,C08,C09,C10 tier=quick unwind=36 witness=decoded,reencoded
 data_rt!(data_rt_p5_s0_l0_on, 5, false, false, None);
 //@ props=C04,C06,C08,C09 tier=quick unwind=36 witness=decoded
 data_rt!(data_rt_p5_s0_l0_o0, 5, false, false, Some(0));
@@ -451,7 +518,7 @@ data_rt!(data_rt_p5_s0_l0_o0, 5, false, false, Some(0));
 data_rt!(data_rt_p5_s0_l0_o1, 5, false, false, Some(1));
 //@ props=C04,C06,C08,C09 tier=quick unwind=36 witness=decoded
 data_rt!(data_rt_p5_s0_l0_o4, 5, false, false, Some(4));
-//@ props=C04,C06,C08,C09 tier=thorough unwind=36 witness=decoded
+//@ props=C04,C06,C08,C09,C10 tier=thorough unwind=36 witness=decoded,reencoded
 data_rt!(data_rt_p5_s0_l1_on, 5, false, true, None);
 //@ props=C04,C06,C08,C09 tier=thorough unwind=36 witness=decoded
 data_rt!(data_rt_p5_s0_l1_o0, 5, false, true, Some(0));
@@ -459,7 +526,7 @@ data_rt!(data_rt_p5_s0_l1_o0, 5, false, true, Some(0));
 data_rt!(data_rt_p5_s0_l1_o1, 5, false, true, Some(1));
 //@ props=C04,C06,C08,C09 tier=thorough unwind=36 witness=decoded
 data_rt!(data_rt_p5_s0_l1_o4, 5, false, true, Some(4));
-//@ props=C04,C06,C08,C09 tier=thorough unwind=36 witness=decoded
+//@ props=C04,C06,C08,C09,C10 tier=thorough unwind=36 witness=decoded,reencoded
 data_rt!(data_rt_p5_s1_l0_on, 5, true, false, None);
 //@ props=C04,C06,C08,C09 tier=thorough unwind=36 witness=decoded
 data_rt!(data_rt_p5_s1_l0_o0, 5, true, false, Some(0));
@@ -467,7 +534,7 @@ data_rt!(data_rt_p5_s1_l0_o0, 5, true, false, Some(0));
 data_rt!(data_rt_p5_s1_l0_o1, 5, true, false, Some(1));
 //@ props=C04,C06,C08,C09 tier=thorough unwind=36 witness=decoded
 data_rt!(data_rt_p5_s1_l0_o4, 5, true, false, Some(4));
-//@ props=C04,C06,C08,C09 tier=quick unwind=36 witness=decoded
+//@ props=C04,C06,C08,C09,C10 tier=quick unwind=36 witness=decoded,reencoded
 data_rt!(data_rt_p5_s1_l1_on, 5, true, true, None);
 //@ props=C04,C06,C08,C09 tier=quick unwind=36 witness=decoded
 data_rt!(data_rt_p5_s1_l1_o0, 5, true, true, Some(0));
@@ -475,7 +542,7 @@ data_rt!(data_rt_p5_s1_l1_o0, 5, true, true, Some(0));
 data_rt!(data_rt_p5_s1_l1_o1, 5, true, true, Some(1));
 //@ props=C04,C06,C08,C09 tier=quick unwind=36 witness=decoded
 data_rt!(data_rt_p5_s1_l1_o4, 5, true, true, Some(4));
-//@ props=C04,C06,C08,C09 tier=thorough unwind=36 witness=decoded
+//@ props=C04,C06,C08,C09,C10 tier=thorough unwind=36 witness=decoded,reencoded
 data_rt!(data_rt_p8_s0_l0_on, 8, false, false, None);
 //@ props=C04,C06,C08,C09 tier=thorough unwind=36 witness=decoded
 data_rt!(data_rt_p8_s0_l0_o0, 8, false, false, Some(0));
@@ -483,7 +550,7 @@ data_rt!(data_rt_p8_s0_l0_o0, 8, false, false, Some(0));
 data_rt!(data_rt_p8_s0_l0_o1, 8, false, false, Some(1));
 //@ props=C04,C06,C08,C09 tier=thorough unwind=36 witness=decoded
 data_rt!(data_rt_p8_s0_l0_o7, 8, false, false, Some(7));
-//@ props=C04,C06,C08,C09 tier=thorough unwind=36 witness=decoded
+//@ props=C04,C06,C08,C09,C10 tier=thorough unwind=36 witness=decoded,reencoded
 data_rt!(data_rt_p8_s0_l1_on, 8, false, true, None);
 //@ props=C04,C06,C08,C09 tier=thorough unwind=36 witness=decoded
 data_rt!(data_rt_p8_s0_l1_o0, 8, false, true, Some(0));
@@ -491,7 +558,7 @@ data_rt!(data_rt_p8_s0_l1_o0, 8, false, true, Some(0));
 data_rt!(data_rt_p8_s0_l1_o1, 8, false, true, Some(1));
 //@ props=C04,C06,C08,C09 tier=thorough unwind=36 witness=decoded
 data_rt!(data_rt_p8_s0_l1_o7, 8, false, true, Some(7));
-//@ props=C04,C06,C08,C09 tier=thorough unwind=36 witness=decoded
+//@ props=C04,C06,C08,C09,C10 tier=thorough unwind=36 witness=decoded,reencoded
 data_rt!(data_rt_p8_s1_l0_on, 8, true, false, None);
 //@ props=C04,C06,C08,C09 tier=thorough unwind=36 witness=decoded
 data_rt!(data_rt_p8_s1_l0_o0, 8, true, false, Some(0));
@@ -499,7 +566,7 @@ data_rt!(data_rt_p8_s1_l0_o0, 8, true, false, Some(0));
 data_rt!(data_rt_p8_s1_l0_o1, 8, true, false, Some(1));
 //@ props=C04,C06,C08,C09 tier=thorough unwind=36 witness=decoded
 data_rt!(data_rt_p8_s1_l0_o7, 8, true, false, Some(7));
-//@ props=C04,C06,C08,C09 tier=thorough unwind=36 witness=decoded
+//@ props=C04,C06,C08,C09,C10 tier=thorough unwind=36 witness=decoded,reencoded
 data_rt!(data_rt_p8_s1_l1_on, 8, true, true, None);
 //@ props=C04,C06,C08,C09 tier=thorough unwind=36 witness=decoded
 data_rt!(data_rt_p8_s1_l1_o0, 8, true, true, Some(0));
